@@ -54,6 +54,7 @@ def mshape(m):
     if h == "MConcat":
         (r1, c1), (r2, c2) = mshape(m[2]), mshape(m[3])
         return (r1, c1 + c2) if m[1] else (r1 + r2, c1)
+    if h == "MTri": return mshape(m[3])
     raise ValueError(h)
 
 
@@ -160,6 +161,10 @@ def mden(s, m):
     elif h == "MConcat":
         A, B = mden(s, m[2]), mden(s, m[3])
         r = [a + b for a, b in zip(A, B)] if m[1] else [list(x) for x in A] + [list(x) for x in B]
+    elif h == "MTri":
+        # to_triangular(A, tag): the named triangle of the stored matrix, unit diagonal for the unit tags
+        A = mden(s, m[3]); upper, unit = m[1], m[2]
+        r = [[(1 if unit else A[i][j]) if i == j else (A[i][j] if ((i < j) if upper else (j < i)) else 0) for j in range(C)] for i in range(R)]
     else: raise ValueError(h)
     for row in r: _chk(row)
     assert len(r) == R and all(len(x) == C for x in r), (m, R, C, r)
@@ -270,15 +275,18 @@ def dump(decls, s):
     return " ".join(out)
 
 
-def expected_lines(decls, stmts):
+def expected_lines(decls, stmts, quiet=0):
+    """one line per statement; the first `quiet` statements (element sets that establish the initial store) produce no line"""
     s = Env()
     for d in decls:
         if d[0] == "v": s.v[d[1]] = [0] * d[2]
         else: s.m[d[1]] = [[0] * d[3] for _ in range(d[2])]
     out = []
     for k, st in enumerate(stmts):
+        if k < quiet:       # initial store: in place (exec_stmt copies the whole store)
+            wr(s, ("v", st[1], st[2]) if st[0] == "SSetV" else ("m", st[1], st[2], st[3]), st[-1]); continue
         s, red = exec_stmt(s, st)
-        out.append("%d ok r=%s | %s" % (k, "-" if red is None else red, dump(decls, s)))
+        if k >= quiet: out.append("%d ok r=%s | %s" % (k - quiet, "-" if red is None else red, dump(decls, s)))
     return out
 
 
@@ -289,12 +297,15 @@ def sx(t):
     return str(t)
 
 
-def term_file(decls, stmts):
+def term_file(decls, stmts, quiet=0):
     L = []
     for d in decls:
         L.append("D v %d %d" % (d[1], d[2]) if d[0] == "v" else "D m %d %d %d" % (d[1], d[2], d[3]))
-    for st in stmts:
-        L.append("S " + sx(st))
+    for k, st in enumerate(stmts):
+        if k < quiet:
+            assert st[0] in ("SSetV", "SSetM")
+            L.append("Q " + " ".join(str(x) for x in st))       # initial store: no output line
+        else: L.append("S " + sx(st))
     return L
 
 
@@ -316,6 +327,7 @@ def morient(m, orient):
         o = morient(m[1], orient); return {"r": "c", "c": "r"}.get(o, o)
     if h in ("MRange", "MRows", "MCols"): return morient(m[1], orient)
     if h == "MConst": return "r"
+    if h == "MTri": return "u"
     if h in ("MScale", "MUn"): return morient(m[2], orient)
     if h in ("MAdd", "MMinus"): return morient(m[1], orient)
     if h == "MBin": return morient(m[2], orient)
@@ -338,6 +350,9 @@ def is_mlval(m):
 
 def is_vlval(e):
     return e[0] == "VVar" or (e[0] == "VRange" and is_vlval(e[1])) or (e[0] in ("VRow", "VCol", "VDiag") and is_mlval(e[1]))
+
+
+TRI_TAG = {(False, False): "lower", (True, False): "upper", (False, True): "unit_lower", (True, True): "unit_upper"}
 
 
 class Cxx:
@@ -380,6 +395,9 @@ class Cxx:
         if h == "VMv":
             assert e[1] == 1
             M, x = e[2], e[3]
+            if M[0] == "MTri":      # triangular_prod takes its vector argument by non-const reference: a container
+                assert x[0] == "VVar"
+                return "triangular_prod<%s>(%s,%s)" % (TRI_TAG[(M[1], M[2])], self.m(M[3]), self.v(x))
             if M[0] == "MTrans" and self.rng.random() < 0.5:
                 return self.pick("prod(%s,%s)" % (self.v(x), self.m(M[1])), "(%s%%%s)" % (self.v(x), self.m(M[1])))
             return self.pick("prod(%s,%s)" % (self.m(M), self.v(x)), "(%s%%%s)" % (self.m(M), self.v(x)))
@@ -423,6 +441,8 @@ class Cxx:
         if h == "MOuter": return "outer_prod(%s,%s)" % (self.v(m[1]), self.v(m[2]))
         if h == "MProd":
             assert m[1] == 1
+            if m[2][0] == "MTri":
+                return "triangular_prod<%s>(%s,%s)" % (TRI_TAG[(m[2][1], m[2][2])], self.m(m[2][3]), self.m(m[3]))
             return self.pick("prod(%s,%s)" % (self.m(m[2]), self.m(m[3])), "(%s%%%s)" % (self.m(m[2]), self.m(m[3])))
         if h == "MRepeat":
             assert not m[1]
@@ -471,8 +491,9 @@ template<class M> static void pm(int id, M const& m){ std::printf(" m%d=%dx%d:",
 """
 
 
-def cxx_program(decls, orient, stmts, rng=None, sparse=()):
-    """one translation unit: declarations, then every statement followed by a dump of every container"""
+def cxx_program(decls, orient, stmts, rng=None, sparse=(), quiet=0):
+    """one translation unit: declarations, then every statement followed by a dump of every container; the first
+    `quiet` statements (element sets) are emitted as data tables + loops and print nothing"""
     cx = Cxx(rng)
     L = [PRELUDE, "int main(){", "  T RED = T(0); bool isred = false; int K = 0;"]
     dumpcode = []
@@ -487,7 +508,20 @@ def cxx_program(decls, orient, stmts, rng=None, sparse=()):
             L.append("  %s m%d(%d,%d);" % (ty, d[1], d[2], d[3]))
             dumpcode.append(("{ matrix<T> t_(m%d); pm(%d,t_); }" % (d[1], d[1])) if ("m", d[1]) in sparse else "pm(%d,m%d);" % (d[1], d[1]))
     L.append("#define P() do{ std::printf(\"%d ok r=%s |\", K++, isred? num(RED).c_str() : \"-\"); isred=false; " + " ".join(dumpcode) + " std::printf(\"\\n\"); std::fflush(stdout); }while(0)")
+    k0 = 0
+    while k0 < quiet:
+        st = stmts[k0]; k1 = k0
+        while k1 < quiet and stmts[k1][0] == st[0] and stmts[k1][1] == st[1]: k1 += 1
+        grp = stmts[k0:k1]
+        if st[0] == "SSetV":
+            L.append("  { static const int d_[] = {%s}; for (int q_ = 0; q_ < %d; ++q_) v%d(d_[2*q_]) = T(d_[2*q_+1]); }" % (
+                ",".join("%d,%d" % (g[2], g[3]) for g in grp), len(grp), st[1]))
+        else:
+            L.append("  { static const int d_[] = {%s}; for (int q_ = 0; q_ < %d; ++q_) m%d(d_[3*q_],d_[3*q_+1]) = T(d_[3*q_+2]); }" % (
+                ",".join("%d,%d,%d" % (g[2], g[3], g[4]) for g in grp), len(grp), st[1]))
+        k0 = k1
     for k, st in enumerate(stmts):
+        if k < quiet: continue
         code = cx.stmt(st)
         if st[0] == "SReduce": code += " isred = true;"
         L.append("  { %s } P(); // %d" % (code, k))
